@@ -80,9 +80,9 @@ fn managers() -> Vec<(String, TableMgr)> {
 
 pub fn run(tier: Tier) -> i32 {
     let rep = Report::new("C13", tier);
-    rep.set_rule("A: Extension::new for all 65536 ids x data lengths 0..=10. B: all chains of length 1..=3 (thorough 1..=4) over a 10-letter alphabet (one optional id per H-LEN class, three known non-final mandatory ids with 0/1/8 data bytes, two final mandatory ids in last position) x protocol types {matching, another id < 0x100, 0x0100, 0x05FF, 0x0600, 0x0800} x labels {6B, 3B, broadcast, substituted re-use, 3B / 6B at / below a consecutive-re-use limit} x PDU lengths {0,1,7} x EVERY buffer size 0..=complete size+3 (plus 4097, 70000), and for chains <= 2 PDU lengths {4060,4078,4085,4088,4090,4093,4096} x buffers around the complete size, 4090..=4110, 13, 40, 8192, fragmented results completed with encap_frag; receivers knowing all / all-but-one (each in turn) / none of the mandatory ids, storage = PDU length and +8. Oracle: Ok => reference parser recovers the same chain/ptype/label/payload and reported length = wire length; knowing receiver delivers the same; receiver missing a used mandatory id rejects consuming exactly the packet, also when more bytes follow. distinct = (call, outcome, chain length / manager class)");
+    rep.set_rule("A: Extension::new for all 65536 ids x data lengths 0..=10. B: all chains of length 1..=3 (thorough 1..=5) over a 10-letter alphabet (one optional id per H-LEN class, three known non-final mandatory ids with 0/1/8 data bytes, two final mandatory ids in last position) x protocol types {matching, another id < 0x100, 0x0100, 0x05FF, 0x0600, 0x0800} x labels {6B, 3B, broadcast, substituted re-use, 3B / 6B at / below a consecutive-re-use limit} x PDU lengths {0,1,7} x EVERY buffer size 0..=complete size+3 (plus 4097, 70000), and for chains <= 2 PDU lengths {4060,4078,4085,4088,4090,4093,4096} x buffers around the complete size, 4090..=4110, 13, 40, 8192, fragmented results completed with encap_frag; receivers knowing all / all-but-one (each in turn) / none of the mandatory ids, storage = PDU length and +8. Oracle: Ok => reference parser recovers the same chain/ptype/label/payload and reported length = wire length; knowing receiver delivers the same; receiver missing a used mandatory id rejects consuming exactly the packet, also when more bytes follow. distinct = (call, outcome, chain length / manager class)");
     part_constructor(&rep);
-    let maxlen = if tier.thorough() { 4 } else { 3 };
+    let maxlen = if tier.thorough() { 5 } else { 3 };
     let mut ch = chains(maxlen);
     for e in crate::props::c06::boundary_exts() {
         ch.push(vec![e.clone()]);
